@@ -36,6 +36,7 @@ type tpWorld struct {
 	fnResult string
 	bufs     codecBufs
 	dirty    bool // the caller mutated the cached object: value-level cache coherence is not claimed (aliasing)
+	argFlags []string // fa / fg / fc: the compute function was handed the caller's object a / g / the cached object
 }
 
 func newTPWorld() *tpWorld {
@@ -145,6 +146,7 @@ func (w *tpWorld) alias(ret *settings, cv *settings) string {
 	if cv != nil && cv == w.g {
 		fl = append(fl, "cg")
 	}
+	fl = append(fl, w.argFlags...)
 	if len(fl) == 0 {
 		return "-"
 	}
@@ -191,6 +193,7 @@ func (w *tpWorld) exec(r *hx.Run, f []string) string {
 	case "reopen":
 		w.open()
 		w.trace = w.trace[:0]
+		w.argFlags = nil
 
 		return w.line("ok", nil)
 	case "mut":
@@ -202,6 +205,7 @@ func (w *tpWorld) exec(r *hx.Run, f []string) string {
 		rawBefore, hasBefore := w.raw()
 		o.X = n
 		w.trace = w.trace[:0]
+		w.argFlags = nil
 		if cv, _, _, _ := w.cache(); cv == o {
 			w.dirty = true
 		}
@@ -236,6 +240,7 @@ func (w *tpWorld) exec(r *hx.Run, f []string) string {
 	w.trace = w.trace[:0]
 	w.anyFail = false
 	w.fnResult = ""
+	w.argFlags = nil
 	failAt := map[int]bool{}
 	if flt.kv1 {
 		failAt[1] = true
@@ -295,7 +300,21 @@ func (w *tpWorld) exec(r *hx.Run, f []string) string {
 				arg, _ = strconv.ParseUint(f[2], 10, 64)
 			}
 			var given []byte
+			roleA, roleG := w.a, w.g
 			ret, err = w.tv.Compute(func(cur *settings, ex bool) (*settings, error) {
+				// ownership: what the function is handed must be an object nobody else holds — not the caller's
+				// (a: last given to Set, g: last returned) and not the one in the cache
+				if cur != nil {
+					if cur == roleA {
+						w.argFlags = append(w.argFlags, "fa")
+					}
+					if cur == roleG {
+						w.argFlags = append(w.argFlags, "fg")
+					}
+					if ptrB != 0 && reflect.ValueOf(cur).Pointer() == ptrB {
+						w.argFlags = append(w.argFlags, "fc")
+					}
+				}
 				res := func(o *settings) (*settings, error) {
 					w.fnResult = "ok"
 					w.trace = append(w.trace, "F")
@@ -316,6 +335,17 @@ func (w *tpWorld) exec(r *hx.Run, f []string) string {
 					return res(&settings{X: arg})
 				case "a", "g":
 					return res(w.role(kind))
+				case "mutnc", "mutfail":
+					// the function works in place on what it was handed and then gives up
+					if ex && cur != nil {
+						cur.X = arg
+					}
+					if kind == "mutnc" {
+						w.fnResult = "nc"
+						w.trace = append(w.trace, "F~")
+
+						return nil, kvstore.ErrTypedValueNotChanged
+					}
 				case "nc":
 					w.fnResult = "nc"
 					w.trace = append(w.trace, "F~")
@@ -387,6 +417,10 @@ func (w *tpWorld) exec(r *hx.Run, f []string) string {
 				map[string]string{"oracle": "cache-changed-on-failure", "api": api, "calls": traceStr(w.trace)})
 		}
 	}
+	if len(w.argFlags) > 0 {
+		r.Fail("ownership", fmt.Sprintf("%s: the compute function was handed an object somebody else holds (%s: fa/fg = the caller's, fc = the cached one); what it does to it before it aborts or fails is then visible through the cache without having been written",
+			op, strings.Join(w.argFlags, ",")), map[string]string{"oracle": "callback-argument-aliased", "api": api})
+	}
 	// the stored bytes are the encoding of what the last successful Set/Compute was given, at the time of that call
 	if wrote != 0 {
 		w.lwKind, w.lwBytes = wrote, wroteBytes
@@ -437,6 +471,9 @@ func corpusTP() [][]string {
 		// mutate after Get of a cached object, then Compute hands the same object back
 		{"tp init none", "tp set new 1 -", "tp get -", "tp mut g 2", "tp compute g -", "tp reopen", "tp get -"},
 		{"tp init none", "tp compute inc 3 -", "tp compute inc 3 -", "tp mut g 40", "tp compute inc 3 -", "tp compute nc -", "tp set g kv1", "tp set g -", "tp reopen", "tp get -"},
+		// the function scribbles over what it was handed and aborts / fails: nothing of it may show through the cache
+		{"tp init none", "tp set new 5 -", "tp compute mutnc 77 -", "tp get -", "tp compute mutfail 78 -", "tp get -", "tp reopen", "tp get -"},
+		{"tp init none", "tp set new 5 -", "tp reopen", "tp get -", "tp compute mutfail 78 -", "tp get -", "tp compute mutnc 77 -", "tp get -", "tp mut g 9", "tp get -"},
 		{"tp init 010203", "tp get -", "tp compute inc 1 -", "tp set new 18446744073709551615 -", "tp set new 2 enc", "tp del -", "tp compute nc -", "tp get -"},
 	}
 }
@@ -489,7 +526,7 @@ func genTP(rng *hx.Rng) []string {
 		case x < 68:
 			ops = append(ops, "tp del "+ft)
 		case x < 92:
-			kind := hx.Pick(rng, []string{"new 5", "inc 3", "inc 3", "nc", "fail", "a", "g"})
+			kind := hx.Pick(rng, []string{"new 5", "inc 3", "inc 3", "nc", "fail", "a", "g", "mutnc 77", "mutfail 78"})
 			ops = append(ops, fmt.Sprintf("tp compute %s %s", kind, ft))
 			haveG = true
 		default:
@@ -513,7 +550,7 @@ func exhaustiveTP() [][]string {
 		{"tp set new 5 -", "tp mut a 18446744073709551615"},
 		{"tp set new 5 -", "tp del -", "tp mut a 8"},
 	}
-	ops := []string{"get", "has", "set new 4", "set a", "set g", "del", "compute new 4", "compute inc 4", "compute a", "compute g", "compute nc", "compute fail"}
+	ops := []string{"get", "has", "set new 4", "set a", "set g", "del", "compute new 4", "compute inc 4", "compute a", "compute g", "compute nc", "compute fail", "compute mutnc 77", "compute mutfail 78"}
 	faults := []string{"-", "kv1", "kv2", "dec", "enc"}
 	var out [][]string
 	for _, pre := range preludes {
